@@ -14,6 +14,7 @@ import (
 	"strconv"
 	"strings"
 	"sync"
+	"sync/atomic"
 )
 
 // Violation is one observed refutation of the property.
@@ -31,6 +32,9 @@ type Rec struct {
 	Shard   int
 	NShards int
 	out     string
+
+	cur         atomic.Pointer[curBox]
+	evalsAtomic int64 // progress counter read by the watchdog
 
 	mu        sync.Mutex
 	evals     int64
@@ -100,6 +104,7 @@ func (r *Rec) Rand(stream string, idx int) *rand.Rand {
 }
 
 func (r *Rec) Eval(n int) {
+	atomic.AddInt64(&r.evalsAtomic, int64(n))
 	r.mu.Lock()
 	r.evals += int64(n)
 	r.mu.Unlock()
